@@ -25,8 +25,9 @@ func init() {
 			"(own) in iptables.Table.loadDataplaneState a chain name read from the kernel enters dirtyChains (whole-chain rewrite/delete) only under ourChainsRegexp.MatchString(name); " +
 			"(delvalue) index-based line renderers (RenderReplace, RenderInsertAtRuleNumber, renderDeleteByIndexLine) are used in applyUpdates only inside loops over dirtyChains, never for insert/append chains shared with other software; " +
 			"(invalidate) after a failed write the cached view is invalidated or reloaded before the next write attempt; " +
-			"(hash) the string hashed for a rule is produced by the same rendering function that produces the line/rule written to the kernel, and RuleHashes chains the previous hash before each rule and seeds with the chain name.",
-		NotDecided: "Convergence from an arbitrary kernel state (delta arithmetic, index bookkeeping of insert/append chains); that ourChainsRegexp matches exactly Felix's chains; parsing of iptables-save output; behaviour of iptables-restore/nft themselves.",
+			"(hash) the string hashed for a rule is produced by the same rendering function that produces the line/rule written to the kernel, and RuleHashes chains the previous hash before each rule and seeds with the chain name; " +
+			"(reread) the two things that suppress a re-read of the kernel table - the lastReadTime stamp the refresh timer is measured from and inSyncWithDataPlane=true - are set, in both tables, only where a kernel read certainly happens (the store is dominated by a read call, or dominates one that post-dominates it; helper functions are justified through all their call sites), and in-sync is never asserted from inside the write path (applyUpdates and its callees): a write is not a read.",
+		NotDecided: "That the comparison between the hashes read back and the expected hashes in loadDataplaneState distinguishes a chain that is absent from the kernel (nil) from one that is present and empty (seed C15-1: reflect.DeepEqual -> slices.Equal): absence is encoded only in the nil-vs-empty value convention shared by the save-output parser, RuleHashes and the comparator, not in any branch or lookup shape, so the only static test would be a whitelist of comparator names; that the refresh test in Apply is measured against lastReadTime. Convergence from an arbitrary kernel state (delta arithmetic, index bookkeeping of insert/append chains); that ourChainsRegexp matches exactly Felix's chains; parsing of iptables-save output; behaviour of iptables-restore/nft themselves.",
 		Assumptions: []string{
 			"go/types + go/ssa (x/tools v0.50.0) model of the current source, CGO_ENABLED=0 build",
 			"iptables-restore and nft transactions are atomic per invocation; logrus Panic*/Fatal* do not return",
@@ -49,6 +50,14 @@ func init() {
 				Old: "\t\t\t\t} else {\n\t\t\t\t\t// Reload the data plane state in case we're out of sync.\n\t\t\t\t\tt.loadDataplaneState()\n\t\t\t\t}\n", New: "\t\t\t\t}\n", Expect: "C15.invalidate/NftablesTable"},
 			{Name: "iptables hash computed from a different rendering", File: "felix/iptables/renderer.go",
 				Old: "\t\treturn i.RenderAppend(r, chain, \"HASH\", features)\n", New: "\t\treturn chain + fmt.Sprint(r.Action)\n", Expect: "C15.hash/iptablesRenderer"},
+			{Name: "nftables write counted as a read (refresh timer starved on a busy node)", File: "felix/nftables/table.go",
+				Old: "\tif wroteToDataplane && t.disabled && len(t.chainToDataplaneHashes) != 0 {\n", New: "\tif wroteToDataplane {\n\t\tt.lastReadTime = t.timeNow()\n\t}\n\tif wroteToDataplane && t.disabled && len(t.chainToDataplaneHashes) != 0 {\n", Expect: "C15.reread/NftablesTable.applyUpdates/lastReadTime"},
+			{Name: "iptables Apply stamps the read time whether or not it read", File: "felix/iptables/table.go",
+				Old: "\tt.gaugeNumChains.Set(float64(len(t.chainRefCounts)))\n", New: "\tt.lastReadTime = now\n\tt.gaugeNumChains.Set(float64(len(t.chainRefCounts)))\n", Expect: "C15.reread/Table.Apply/lastReadTime"},
+			{Name: "iptables write stamps the read time as well as the write time", File: "felix/iptables/table.go",
+				Old: "\t\tt.lastWriteTime = t.timeNow()\n", New: "\t\tt.lastWriteTime = t.timeNow()\n\t\tt.lastReadTime = t.lastWriteTime\n", Expect: "C15.reread/Table.applyUpdates/lastReadTime"},
+			{Name: "nftables successful write re-asserts in-sync (a skipped resync is forgotten)", File: "felix/nftables/table.go",
+				Old: "\twroteToDataplane := tx.NumOperations() > 0\n", New: "\tt.inSyncWithDataPlane = true\n\twroteToDataplane := tx.NumOperations() > 0\n", Expect: "C15.reread/NftablesTable.applyUpdates/inSyncWithDataPlane"},
 			{Name: "rule position no longer hashed", File: "felix/generictables/rules.go",
 				Old: "\t\ts.Reset()\n\t\t_, err = s.Write(hash)\n", New: "\t\ts.Reset()\n\t\t_, err = s.Write(nil)\n", Expect: "C15.hash/RuleHashes/chained"},
 		},
@@ -76,6 +85,7 @@ func runC15(c *Ctx) {
 	c.Rule("C15.commit", "E-ORDER/E-ERR", "believed dataplane state and dirty sets are mutated in applyUpdates only behind the nil-error edge of the restore/transaction call or the nothing-to-write test; per-key edits only there", floor(12))
 	c.Rule("C15.invalidate", "E-ERR", "a failed write invalidates or reloads the cached view before the next write attempt", floor(2))
 	c.Rule("C15.hash", "E-FLOW/E-ORDER", "hashed string comes from the renderer that writes the rule; RuleHashes chains previous hash and seeds with the chain name", floor(7))
+	c.Rule("C15.reread", "E-ORDER", "lastReadTime and inSyncWithDataPlane=true (the suppressors of a kernel re-read) are set only where a kernel read certainly happens; in-sync is never asserted inside the write path", floor(5))
 	nCommit, nInv, nHash := 0, 0, 0
 	if want[c15IptPkg] {
 		c.Rule("C15.own", "E-GUARD", "iptables.Table.loadDataplaneState: dirtyChains.Add(name) only under ourChainsRegexp.MatchString(name)", 2)
@@ -86,12 +96,36 @@ func runC15(c *Ctx) {
 		c15Own(c, p)
 		c15DelValue(c, p)
 		nHash += c15HashRenderer(c, p, c15IptPkg, "iptablesRenderer")
+		saveCmd := c15Field(c, p, c15IptPkg, "Table", "iptablesSaveCmd")
+		c15Reread(c, p, c15IptPkg, "Table", func(ci ssa.CallInstruction) bool {
+			// the command factory invoked on the configured iptables-save binary
+			cc := ci.Common()
+			if cc.IsInvoke() || cc.Signature() == nil || cc.Signature().Results().Len() != 1 || !types.IsInterface(cc.Signature().Results().At(0).Type()) {
+				return false
+			}
+			for _, a := range cc.Args {
+				if fieldVar(a) == saveCmd {
+					return true
+				}
+			}
+			return false
+		})
 	}
 	if want[c15NftPkg] {
 		p := c.Load(c15NftPkg)
 		nCommit += c15Commit(c, p, c15NftPkg, "NftablesTable", []string{"chainToDataplaneHashes"}, []string{"dirtyChains", "dirtyBaseChains"})
 		nInv += c15Invalidate(c, p, c15NftPkg, "NftablesTable")
 		nHash += c15HashRenderer(c, p, c15NftPkg, "nftRenderer")
+		nftField := c15Field(c, p, c15NftPkg, "NftablesTable", "nft")
+		c15Reread(c, p, c15NftPkg, "NftablesTable", func(ci ssa.CallInstruction) bool {
+			// a query method (data, error) invoked on the table's own knftables handle
+			cc := ci.Common()
+			if !cc.IsInvoke() || fieldVar(cc.Value) != nftField {
+				return false
+			}
+			res := cc.Signature().Results()
+			return res.Len() == 2 && c17IsErrorType(res.At(1).Type()) && !c17IsErrorType(res.At(0).Type())
+		})
 	}
 	if want[c15GenPkg] {
 		p := c.Load(c15GenPkg)
@@ -623,4 +657,172 @@ func c15RuleHashes(c *Ctx, p *Prog) int {
 		"the first rule chains from a hash of the chain name",
 		"RuleHashes does not seed the chain of hashes with Chain.Name: identical rules in different chains would share hashes")
 	return n
+}
+
+// c15Reread: the refresh timer in Apply is measured from lastReadTime and the
+// reload is skipped while inSyncWithDataPlane is true.  Both may therefore only
+// be set where the kernel table is certainly read: a store is justified when a
+// read call R of the same function dominates it, or it dominates R and R
+// post-dominates it (stamp taken just before the read).  A function without a
+// read of its own (extracted helper) is justified when every one of its static
+// call sites is.  A read call is a read primitive (isPrim) or a static call
+// whose callee reaches one within three levels.  For inSyncWithDataPlane=true a
+// second justification exists (the view was reset by construction, pending a
+// table recreate), so there the obligation is the weaker "not inside the write
+// path": applyUpdates and everything it statically reaches.
+func c15Reread(c *Ctx, p *Prog, pkg, typ string, isPrim func(ssa.CallInstruction) bool) {
+	stamp := c15Field(c, p, pkg, typ, "lastReadTime")
+	flag := c15Field(c, p, pkg, typ, "inSyncWithDataPlane")
+	applyUpd := p.Func(pkg, typ+".applyUpdates")
+	if applyUpd == nil {
+		c.Lost("%s.%s.applyUpdates", pkg, typ)
+	}
+	var funcs []*ssa.Function // top-level functions with bodies of this package
+	for _, f := range p.AllFuncs() {
+		if f.Parent() == nil && f.Blocks != nil && f.Pkg != nil && f.Pkg.Pkg.Path() == calicoPrefix+pkg {
+			funcs = append(funcs, f)
+		}
+	}
+	reachMemo := map[*ssa.Function]bool{}
+	var reaches func(f *ssa.Function, d int, seen map[*ssa.Function]bool) bool
+	reaches = func(f *ssa.Function, d int, seen map[*ssa.Function]bool) bool {
+		if f == nil || f.Blocks == nil || seen[f] {
+			return false
+		}
+		seen[f] = true
+		found := false
+		allInstrs(f, true, func(_ *ssa.Function, in ssa.Instruction) {
+			ci, ok := in.(ssa.CallInstruction)
+			if !ok || found {
+				return
+			}
+			if isPrim(ci) || (d > 0 && reaches(calleeFn(ci.Common()), d-1, seen)) {
+				found = true
+			}
+		})
+		return found
+	}
+	isRead := func(ci ssa.CallInstruction) bool {
+		if isPrim(ci) {
+			return true
+		}
+		sf := calleeFn(ci.Common())
+		if sf == nil {
+			return false
+		}
+		if v, ok := reachMemo[sf]; ok {
+			return v
+		}
+		v := reaches(sf, 3, map[*ssa.Function]bool{})
+		reachMemo[sf] = v
+		return v
+	}
+	anyRead := false
+	for _, f := range funcs {
+		allInstrs(f, true, func(_ *ssa.Function, in ssa.Instruction) {
+			if ci, ok := in.(ssa.CallInstruction); ok && isPrim(ci) {
+				anyRead = true
+			}
+		})
+	}
+	if !anyRead {
+		c.Lost("%s: no kernel read primitive found in the package (read anchor lost)", typ)
+	}
+	// justified: "" if a kernel read certainly accompanies `in`; else why not.
+	var justified func(in ssa.Instruction, depth int) string
+	justified = func(in ssa.Instruction, depth int) string {
+		top := in.Parent()
+		for top.Parent() != nil {
+			top = top.Parent()
+		}
+		at := c17PosInParent(in, top)
+		if at == nil {
+			return "it sits in a closure of " + fnName(top) + " whose point of use cannot be located"
+		}
+		pd := postDominators(top)
+		nReads := 0
+		for _, b := range top.Blocks {
+			for _, x := range b.Instrs {
+				r, ok := x.(ssa.CallInstruction)
+				if !ok || x == at || !isRead(r) {
+					continue
+				}
+				nReads++
+				if instrDominates(x, at) || (instrDominates(at, x) && instrPostDominates(pd, x, at)) {
+					return ""
+				}
+			}
+		}
+		if nReads > 0 {
+			return fnName(top) + " reads the kernel only on some paths through this point"
+		}
+		if depth == 0 {
+			return fnName(top) + " performs no kernel read"
+		}
+		nSites := 0
+		for _, g := range funcs {
+			var why string
+			allInstrs(g, true, func(_ *ssa.Function, x ssa.Instruction) {
+				if ci, ok := x.(ssa.CallInstruction); ok && calleeFn(ci.Common()) == top {
+					nSites++
+					if w := justified(x, depth-1); w != "" && why == "" {
+						why = w
+					}
+				}
+			})
+			if why != "" {
+				return fnName(top) + " performs no kernel read and is called from " + fnName(g) + ", where " + why
+			}
+		}
+		if nSites == 0 {
+			return fnName(top) + " performs no kernel read and has no static call site to justify it"
+		}
+		return ""
+	}
+	writePath := reachableFuncs([]*ssa.Function{applyUpd}, nil)
+	topOf := func(f *ssa.Function) *ssa.Function {
+		for f.Parent() != nil {
+			f = f.Parent()
+		}
+		return f
+	}
+	nStamp, nFlag := 0, 0
+	for _, f := range funcs {
+		st, _ := c17FieldMutations(f, stamp)
+		for _, in := range st {
+			if _, isConst := in.(*ssa.Store).Val.(*ssa.Const); isConst {
+				continue // zero value: can only force a re-read
+			}
+			nStamp++
+			key := fmt.Sprintf("C15.reread/%s/lastReadTime", fnName(f))
+			why := justified(in, 2)
+			c.Check(why == "", key, p.Pos(in.Pos()),
+				"read time is stamped only where the kernel table is certainly read",
+				fmt.Sprintf("%s.lastReadTime is set in %s at %s but %s: the refresh timer (the only repair path for out-of-band edits between writes) is pushed back without a read", typ, fnName(f), p.Pos(in.Pos()), why))
+		}
+		st, _ = c17FieldMutations(f, flag)
+		for _, in := range st {
+			k, ok := constOf(in.(*ssa.Store).Val)
+			if ok && k.ExactString() == "false" {
+				continue
+			}
+			nFlag++
+			key := fmt.Sprintf("C15.reread/%s/inSyncWithDataPlane", fnName(f))
+			why := justified(in, 2)
+			switch {
+			case why == "":
+				c.Ok(key, p.Pos(in.Pos()), "in-sync is asserted where the kernel table was certainly read")
+			case !writePath[topOf(in.Parent())]:
+				c.Ok(key, p.Pos(in.Pos()), "in-sync is asserted outside the write path (%s)", why)
+			default:
+				c.Violate(key, p.Pos(in.Pos()), "%s.inSyncWithDataPlane is set to true in %s at %s, inside the write path (reachable from applyUpdates), but %s: a pending or skipped resync would be cancelled by a write", typ, fnName(f), p.Pos(in.Pos()), why)
+			}
+		}
+	}
+	if nStamp == 0 {
+		c.Lost("%s.lastReadTime is never set", typ)
+	}
+	if nFlag == 0 {
+		c.Lost("%s.inSyncWithDataPlane is never set to true", typ)
+	}
 }
